@@ -128,6 +128,8 @@ struct echsx_task_s {
 };
 
 static pid_t chld;
+/* set when the deadline passed before there was a job to signal */
+static volatile sig_atomic_t overduep;
 
 static char *const _mcmd[] = {
 	"sendmail",
@@ -180,6 +182,12 @@ timeo_cb(int UNUSED(signum))
 		sigaction(SIGALRM, &sa, NULL);
 	}
 	block_sigs();
+	if (UNLIKELY(chld <= 0)) {
+		/* no job yet, and pid 0 is our whole process group, the
+		 * daemon included; run_task() will see to the job */
+		overduep = 1;
+		return;
+	}
 	kill(chld, SIGXCPU);
 	return;
 }
@@ -865,6 +873,10 @@ cannot initialise file actions: %s", STRERR);
 		ECHS_NOTI_LOG("starting `%s' -> process %d", t->t->cmd, chld);
 		/* assume success */
 		t->xc = 0;
+		if (UNLIKELY(overduep)) {
+			/* its time was up before it even started */
+			kill(chld, SIGXCPU);
+		}
 	}
 
 	/* also get rid of the file actions resources */
